@@ -25,12 +25,16 @@ CHECKS = {
    technique='deterministic simulation, sequential (no pre-emption) configuration of the threadsim cache harness: seeded operation histories checked step by step against an executable reference cache, destructive eviction-order probe, ddmin replay',
    text='Seeded histories of 1-40 dict-API operations (including |=, copy, ==, re-entrant on_miss callbacks, equal-but-differently-typed keys) on LRI and LRU with small max_size; after every step outcome, contents, len, the three counters and the on_miss call log are compared with the reference cache of models/lru_model.py, the eviction order is probed through the public API at the end and after three seeded prefixes. No fault or schedule dimension exists in this property (faults_fired is empty): it is claimed as the fault-free baseline and oracle validation of the C03 simulation. Sampling, not proof.',
    note='Trusts the reference model as the reading of C02 (popitem may return any present pair; update/|= = sequence of assignments; copy = .copy()). Found and fixed three defects (known_findings.json C02-F1..F3); 14 seeded mutants detected in the quick tier.'),
+ 'C03': dict(engine='threadsim', category='exploration', design_ref='4.1',
+   technique='deterministic simulation of threads: baton-passing real threads pre-empted at every bytecode of cacheutils (sys.monitoring INSTRUCTION events) and at every lock operation, seeded random/PCT/pre-emption-bounded schedules plus a single-pre-emption sweep, linearizability check against a reference cache, schedule re-search + ddmin replay',
+   text='2-4 logical threads run seeded programs on one shared LRI/LRU whose lock is a simulated RLock; the simulator alone decides which thread runs at each of ~10^2-10^3 pre-emption points per run. The recorded history (invoke/return stamps from the global step counter, outcomes, probed final contents and eviction order) must be linearizable against models/lru_model.py; impossible exceptions, capacity overflow, deadlock, livelock (step cap) and an unusable cache afterwards are violations too. Floor on every invocation: for every ordered pair of 17 operations, both classes, thread A pre-empted once at each of its yield points with thread B run in between (about 67k schedules). Sampling of schedules, not proof.',
+   note='Assumes the GIL (C-level dict operations on int/str/tuple keys atomic); counters are outside the concurrent specification; known finding C03-F1 (lock-free inherited readers see a prefix of one in-flight operation) is classified by an executable relaxed oracle and reported as KNOWN-FINDING, everything else is strict. 14 seeded mutants (each lock removed, narrowed critical section, non re-entrant lock, per-call lock) detected in the quick tier.'),
  'C12': dict(engine='simnet', category='exploration', design_ref='4.5',
    technique='deterministic simulation: scripted stream socket + discrete-event clock, seeded delivery/timeout/partial-send schedules, reference stream model, ddmin replay',
    text='Seeded search over byte streams, their composition into deliveries, timeout placements, kernel recv/send split scripts, recvsize/maxsize settings and call programs, executed against the real BufferedSocket/NetstringSocket over a simulated socket and clock; after every call (including every call that raised) the result is compared with an independent whole-stream model and byte conservation (returned + buffered + undelivered == stream; peer + kernel + send buffer == handed over) is checked; bounded liveness after faults stop. A fixed floor enumerates every composition of four short delimiter-rich streams. Sampling, not proof.',
    note='Trusts the SimSocket contract (never more than asked, b"" only after close, EWOULDBLOCK at timeout 0, send accepts 1..n bytes), sizes >= 1, and the reference model in checks/c12.py; 16 seeded mutants of socketutils are detected in the quick tier (DESIGN 4.5).'),
 }
-PENDING = {k: 'claimed by DESIGN.md but its check is not built yet in this commit (engine under construction); listed here only until the check lands' for k in ['C03','C04','C05','C15','C18']}
+PENDING = {k: 'claimed by DESIGN.md but its check is not built yet in this commit (engine under construction); listed here only until the check lands' for k in ['C04','C05','C15','C18']}
 
 def main():
     checks = []
